@@ -229,6 +229,9 @@ def _wavelength_var(vals, unit, typ, lay):
     return sc.array(dims=['b', 'a'], values=buf, unit=unit, dtype=typ).transpose(['a', 'b'])
 
 
+_RECYCLED: list = []      # Material objects that have been evaluated and belong to no pool
+
+
 def _mu_event(ctx, tid, S, first=None, of=0):
     """One call of Material.attenuation_coefficient.  S (the case, kept for the second evaluation):
       sp, n (Fraction, 1/n_unit^3), n_unit, lam (list of Fractions in lam_unit), lam_unit, ss_m2, sa_m2 (exact
@@ -257,7 +260,16 @@ def _mu_event(ctx, tid, S, first=None, of=0):
         pool, mkey = S.get('pool') if not of else None, (id(S['sp']), nv, S['n_unit'], n_type)
         mat = pool.get(mkey) if pool is not None else None
         if mat is None:
-            mat = Material(S['sp'], sc.scalar(nv, unit=f'1/{S["n_unit"]}**3', dtype=n_type))
+            dens = sc.scalar(nv, unit=f'1/{S["n_unit"]}**3', dtype=n_type)
+            if pool is None and _RECYCLED and tid % 3 == 1:
+                # a Material is a plain (mutable) dataclass: an object that has been evaluated before is given
+                # another sample (both fields reassigned); the law holds for what it describes NOW
+                mat = _RECYCLED.pop(0)
+                mat.scattering_params = S['sp']
+                mat.effective_sample_number_density = dens
+                info['material_object_reassigned'] = True
+            else:
+                mat = Material(S['sp'], dens)
             if pool is not None:
                 pool[mkey] = mat                           # the same Material object serves several cases
         info['material_object_used_before'] = bool(S.get('reused'))
@@ -267,6 +279,8 @@ def _mu_event(ctx, tid, S, first=None, of=0):
         got = mat.attenuation_coefficient(wl)
         if S.get('twice'):
             got = mat.attenuation_coefficient(wl)      # same Material, same wavelength variable: judged
+        if pool is None and len(_RECYCLED) < 4:
+            _RECYCLED.append(mat)
         ev['kept'] = bool(np.array_equal(np.array(wl.values), before) and wl.unit == sc.Unit(S['lam_unit'])
                           and str(wl.dtype) == wl_type)
     except Exception as e:  # noqa: BLE001
